@@ -205,7 +205,13 @@ func applyRepoStep(w *World, s step) (handled bool, err error) {
 func replayPush(c *core.Ctx, lfsBin string, b *behaviour, idx int) (viol *core.Violation, infra error) {
 	root := filepath.Join(c.Work, fmt.Sprintf("w%d", idx))
 	defer os.RemoveAll(root)
-	w, err := NewWorld(root, filepath.Dir(lfsBin), c.Seed)
+	// transport is a concretisation-only dimension: every third behaviour is replayed against a
+	// file:// remote, where git-lfs's own standalone agent is the server
+	transport := "http"
+	if b.hash%3 == 0 {
+		transport = "file"
+	}
+	w, err := NewWorldOpts(root, filepath.Dir(lfsBin), c.Seed, WorldOpts{FileRemote: transport == "file"})
 	if err != nil {
 		return nil, err
 	}
@@ -248,8 +254,8 @@ func replayPush(c *core.Ctx, lfsBin string, b *behaviour, idx int) (viol *core.V
 		afterAll := w.ServerAll()
 		refsAfter := w.RemoteRefs(branches)
 		mk := func(assertion, why string) *core.Violation {
-			return &core.Violation{Assertion: assertion, Fields: map[string]string{"mode": s.str("mode"), "verdict": s.str("verdict")},
-				Detail: map[string]interface{}{"why": why, "behaviour": json.RawMessage(b.raw), "step": i, "exit": r.Code,
+			return &core.Violation{Assertion: assertion, Fields: map[string]string{"mode": s.str("mode"), "verdict": s.str("verdict"), "transport": transport},
+				Detail: map[string]interface{}{"why": why, "behaviour": json.RawMessage(b.raw), "step": i, "exit": r.Code, "transport": transport,
 					"output": core.Tail(r.All(), 1500), "server_before": before, "server_after": after, "remote_refs_before": refsBefore,
 					"remote_refs_after": refsAfter, "commands": w.Log}}
 		}
@@ -268,6 +274,13 @@ func replayPush(c *core.Ctx, lfsBin string, b *behaviour, idx int) (viol *core.V
 		switch s.str("verdict") {
 		case "ok":
 			if r.Code != 0 {
+				// with a file:// remote there is no batch API to learn that the remote already holds an
+				// object: git-lfs insists on the local copy.  The property does not promise success, so
+				// this is recorded (drift) and not judged; over http it has always held and is asserted.
+				if transport == "file" && !subset(toStrings(s["need"]), toSet(w.LocalOids())) {
+					c.AddInt("drift_file_remote_push_needs_local_copy", 1)
+					return nil, nil
+				}
 				return mk("push-succeeds-when-complete", "every needed object is available but the push failed"), nil
 			}
 			if !subset(toStrings(s["need"]), afterSet) {
@@ -395,10 +408,10 @@ func init() {
 			cls[b.class] = true
 		}
 		c.Set("distinct_nontrivial", len(cls))
-		c.Set("rule", "behaviours = TLC per-edge output of spec/Push.tla for every edge ending in a push; sampled deterministically (VERIF_SEED) round-robin over classes (last-push mode x verdict x number of pushes x features damage/otherpush/merge/raw/delete/branch); distinct_nontrivial = classes replayed")
+		c.Set("rule", "behaviours = TLC per-edge output of spec/Push.tla for every edge ending in a push; sampled deterministically (VERIF_SEED) round-robin over classes (last-push mode x verdict x number of pushes x features damage/otherpush/merge/raw/delete/branch); every third behaviour (by hash) is replayed against a file:// remote (standalone file transfer, git-lfs itself is the server), the others against the HTTP server; distinct_nontrivial = classes replayed")
 		for i := 0; i < len(bs); i += len(bs)/4 + 1 {
 			c.Sample(json.RawMessage(bs[i].raw))
 		}
-		c.Assume("work tree holds pointer files (skip-smudge checkouts), so a missing local object cannot be re-cleaned from the work tree; the fake server rejects uploads whose bytes do not hash to the oid, as real servers do; remote = bare repository over a file path with lfs.url pointing at the fake HTTP server")
+		c.Assume("work tree holds pointer files (skip-smudge checkouts), so a missing local object cannot be re-cleaned from the work tree; the fake server rejects uploads whose bytes do not hash to the oid, as real servers do; remote = bare repository over a file path with lfs.url pointing at the fake HTTP server, or a file:// URL without any LFS server; with a file:// remote a push that needs an object the clone lacks fails even when the remote already holds it (no batch API to ask) - recorded as drift, not judged")
 	}
 }
